@@ -121,20 +121,34 @@ RS = "\x1e"
 
 
 def gen_ok_session(rng, n=None):
-    """lines that are believed to succeed (std items; modules imported on the way)"""
-    n = n or rng.randrange(4, 12)
-    mods = rng.sample(c06.STD_MODS, rng.randrange(1, 4))
+    """lines that are believed to succeed (typed item table of c06; modules imported on the way).  Lines that
+    read the last result (`ans`, `_`) are preferred right after a line that produced one, so that what `ans`
+    denotes — and in which representation — is observed in every variant."""
+    n = n or rng.randrange(5, 16)
+    mods = list(dict.fromkeys(rng.sample(c06.STD_MODS, rng.randrange(1, 4))))
     have = set()
     lines = []
-    for _ in range(n):
-        if rng.random() < 0.2:
+    for m in ("units::si", "core::quantities"):
+        if rng.random() < 0.7:
+            have.update("mod:" + x for x in c06.module_closure(m))
+            lines.append("use " + m)
+    while len(lines) < n:
+        if rng.random() < 0.15:
             m = rng.choice(mods)
             have.update("mod:" + x for x in c06.module_closure(m))
             lines.append("use " + m)
             continue
-        cands = [i for i in c06.STD_ITEMS if all(r in have for r in i[1]) and not (i[3] and all(p in have for p in i[2]))]
-        it = rng.choice(cands)
-        have.update(it[2])
+        if rng.random() < 0.35:
+            # goal directed: pick any item and first establish what it needs (deep chains get exercised)
+            got = c06.plan_item(rng, have, rng.choice(c06.STD_ITEMS))
+            if got:
+                lines += got
+                continue
+        cands = c06.usable_items(have)
+        weights = [4 if any(r.split(":")[0] == "ans" for r in i[1]) else
+                   (2 if any(p.startswith("ans:q") for p in i[2]) else 1) for i in cands]
+        it = rng.choices(cands, weights=weights)[0]
+        c06.item_apply(have, it)
         lines.append(it[0])
     return lines
 
@@ -210,6 +224,32 @@ def pty_save_replay(chk, tmp):
     return res
 
 
+def joined_disagrees(binary, lines):
+    """every line succeeds incrementally, but the joined input differs in prints, last result or final state"""
+    if not lines:
+        return None
+    o = S.run_sessions(binary, [[("I", l) for l in lines] + [("d", "")], [("I", "\n".join(lines)), ("d", "")]])
+    if len(o[0]) < len(lines) + 1 or len(o[1]) < 2:
+        return None
+    a = summarize(o[0][:len(lines)])
+    if not a[0]:
+        return None
+    b = summarize(o[1][:1])
+    if a != b:
+        return "incremental: prints %r, last result %r; joined: %s, prints %r, last result %r" % (
+            a[1], a[2], "ok" if b[0] else o[1][0], b[1], b[2])
+    if o[0][-1] != o[1][-1]:
+        return "final state differs: %s vs %s" % (o[0][-1][:300], o[1][-1][:300])
+    return None
+
+
+def shrink_lines(binary, lines):
+    if joined_disagrees(binary, lines) is None:
+        return lines, None
+    small = common.shrink_list(lines, lambda cand: joined_disagrees(binary, cand) is not None, max_rounds=80)
+    return small, joined_disagrees(binary, small)
+
+
 def run(chk):
     binary, _ = common.build_harness()
     c06.write_skeleton(c06.skeleton_from_source()[0])
@@ -261,7 +301,7 @@ def run(chk):
         cases.append(rl + [("d", ""), ("R", "save " + path), ("L", path)]); meta.append((si, "repl+save"))
         # clone after k inputs: original continues with xs, clone with the rest of the session
         cases.append([("I", l) for l in lines[:k]] + [("K", "1")] + [("I", x) for x in xs] + [("@", "1")]
-                     + [("I", l) for l in lines[k:]] + [("d", "")]); meta.append((si, "clone@%d" % k))
+                     + [("I", l) for l in lines[k:]] + [("d", "")]); meta.append((si, "clone@%d@%d" % (k, len(xs))))
     outs = S.run_sessions(binary, cases)
 
     # replay of the saved files
@@ -269,9 +309,10 @@ def run(chk):
     for ci, (si, kind) in enumerate(meta):
         if kind == "repl+save":
             content = outs[ci][-1] if outs[ci] else ""
-            saved = [l for l in content.split("\n") if l != ""] if not content.startswith("@@") else None
+            saved = content if not content.startswith("@@") else None
             replay_idx.append((ci, si, saved))
-            replay_cases.append([("I", l) for l in (saved or [])] + [("d", "")])
+            # the saved file is replayed the way `numbat <file>` does it: as ONE input
+            replay_cases.append([("F", saved or "")] + [("d", "")])
     routs = S.run_sessions(binary, replay_cases)
 
     problems = []
@@ -303,14 +344,15 @@ def run(chk):
             stats["joined_or_split_compared"] += 1
         elif kind.startswith("clone"):
             k = int(kind.split("@")[1])
+            nx = int(kind.split("@")[2])
             n = len(lines)
-            # items: k inputs, 2 xs, n-k inputs on the clone, digest of the clone
-            clone_items = items[k + 2:k + 2 + (n - k)]
+            # items: k inputs, nx inputs fed to the original after cloning, n-k inputs on the clone, digest of the clone
+            clone_items = items[k + nx:k + nx + (n - k)]
             if items[:k] + clone_items != per:
                 problems.append((si, kind, "the clone answers %r, the uncloned session %r" % (clone_items, per[k:])))
             elif items[-1] != dig:
                 problems.append((si, kind, "clone ends in a different state than the uncloned session "
-                                           "(the original was fed 2 other inputs after cloning): %s vs %s" % (items[-1][:300], dig[:300])))
+                                           "(the original was fed other inputs after cloning): %s vs %s" % (items[-1][:300], dig[:300])))
             stats["clones_compared"] += 1
     for (ci, si, saved), ro in zip(replay_idx, routs):
         (ok, prints, last), dig, per = base[si]
@@ -320,7 +362,7 @@ def run(chk):
         if saved is None:
             problems.append((si, "repl+save", "save failed: %r" % (outs[ci][-2:],)))
             continue
-        if [x.strip() for x in saved] != [l.strip() for l in lines]:
+        if saved != "".join(l.strip() + "\n" for l in lines):
             problems.append((si, "repl+save", "save wrote %r, the successful inputs are %r" % (saved, lines)))
             continue
         # the REPL session itself (with failing lines in between) must end like the plain one
@@ -328,9 +370,11 @@ def run(chk):
         if repl_digest != dig:
             problems.append((si, "repl+save", "REPL session with failing lines in between ends in %s, without them %s" % (
                 repl_digest[:300], dig[:300])))
-        elif ro[:len(saved)] != per or ro[-1] != dig:
-            problems.append((si, "replay", "replaying the saved file: %r / %s ; original %r / %s" % (
-                ro[:len(saved)], ro[-1][:200], per, dig[:200])))
+        else:
+            ok3, prints3, last3 = summarize(ro[:1])
+            if not ok3 or prints3 != prints or last3 != last or ro[-1] != dig:
+                problems.append((si, "replay", "replaying the saved file as a file: %r / %s ; original session: prints %r, "
+                                               "last result %r / %s" % (ro[:1], ro[-1][:300], prints, last, dig[:300])))
         stats["replays_compared"] += 1
 
     # toy sessions in joined form: model vs implementation
@@ -388,8 +432,10 @@ def run(chk):
         if si in seen:
             continue
         seen.add(si)
+        small, why = shrink_lines(binary, sessions[si])
         chk.violation({"kind": "incremental / joined / replayed / cloned sessions disagree (real numbat Context)",
-                       "lines": sessions[si], "variant": kind, "detail": text,
+                       "lines": small, "variant": kind, "detail": why or text,
+                       "original_session": sessions[si] if small != sessions[si] else None,
                        "replay": "./check C07 --replay <this file>"})
         found += 1
         if found >= 3:
